@@ -522,6 +522,21 @@ func collectRaces(w *W) {
 					break
 				}
 			}
+			if !inFun {
+				// the library function itself may have been inlined into the
+				// harness; the instrumented operation it performed still names
+				// it: simrt's map-order / lock / channel wrappers are called
+				// from instrumented library code only (the type arguments show
+				// whose map it is)
+				for _, l := range strings.Split(blk, "\n")[1:] {
+					l = strings.TrimSpace(l)
+					if strings.HasPrefix(l, "verif/simrt.MapOrder[") && strings.Contains(l, "github.com/tychoish/fun") {
+						fn = "(inlined) range over a library map"
+						inFun = true
+						break
+					}
+				}
+			}
 			if inFun {
 				frames = append(frames, fn)
 			} else {
